@@ -28,6 +28,7 @@ type mercScn struct {
 	prev       any
 	noLabel    bool
 	outage     int // this many correct observers have no valid max-finalized value this round (failed lookup)
+	split      bool // the correct observers all report different max-finalized values this round (no f+1 agreement)
 }
 
 func mercI192(v *big.Int) string {
@@ -353,6 +354,12 @@ func (s *mercScn) round(g *G) (aos []any, hidx []any) {
 			} else {
 				o["mft"], o["mftValid"] = "0", false
 			}
+		} else if s.split {
+			if s.v == 1 {
+				o["mfbn"], o["mfbnValid"] = S(s.mft-int64(1+i)*100), true
+			} else {
+				o["mft"], o["mftValid"] = S(s.mft-int64(1+i)*100), true
+			}
 		} else if s.outage > 0 {
 			if s.v == 1 {
 				o["mfbn"], o["mfbnValid"] = S(s.mft), true
@@ -662,6 +669,7 @@ func genMercHistories(g *G) {
 				s.n, s.b = g.R.Intn(s.f+1), 0 // a round that fails
 			}
 			s.outage = 0
+			s.split = g.R.Intn(8) == 0 // a round without agreement on the max-finalized value (errors while bootstrapping)
 			if g.R.Intn(5) == 0 && s.n >= 2*s.f+2 {
 				// partial outage of the max-finalized lookup: exactly f+1 correct observers still agree on
 				// the value, all others (at least as many) have none
@@ -753,6 +761,32 @@ func genMercHistories(g *G) {
 			g.Emit(J{"op": "mercury.history", "v": v, "cfg": s.cfg(), "codec": s.codec, "prev": nil, "rounds": rounds, "honest": labels},
 				fmt.Sprintf("v%d", v), "history", "bootstrap-outage")
 		}
+	}
+	// directed: a bootstrap round without agreement (all votes different), then a bootstrap round in which
+	// f+1 correct observers agree and one faulty observer repeats its high value from the failed round
+	for v := 1; v <= 4; v++ {
+		s := mercBase(g, v)
+		s.b, s.n = 0, 4
+		var rounds, labels []any
+		for r := 0; r < 3; r++ {
+			s.split = r == 0
+			aos, hidx := s.round(g)
+			high := S(s.mft + 4000)
+			m := aos[len(aos)-1].(J)
+			if v == 1 {
+				m["mfbn"], m["mfbnValid"] = high, true
+			} else {
+				m["mft"], m["mftValid"] = high, true
+			}
+			hidx = hidx[:len(hidx)-1]
+			rounds = append(rounds, aos)
+			labels = append(labels, hidx)
+			s.T = mercSatAdd(s.T, 2)
+			s.top += 2
+		}
+		s.split = false
+		g.Emit(J{"op": "mercury.history", "v": v, "cfg": s.cfg(), "codec": s.codec, "prev": nil, "rounds": rounds, "honest": labels},
+			fmt.Sprintf("v%d", v), "history", "disagreement-then-bootstrap")
 	}
 	// directed v1: chain advancing one block per round, stalling, bootstrap from -1
 	for _, m := range []int64{-1, 990} {
